@@ -49,15 +49,24 @@ func (mf *memFile) Less(than btree.Item) bool {
 var _ btree.Item = (*memFile)(nil)
 
 func (ms *memstore) CreateBucket(bucket string) error {
+	ms.getOrCreateBucket(bucket)
+	return nil
+}
+
+// getOrCreateBucket returns the named bucket, creating it first if needed, in one critical section
+// so that a concurrent bucket delete cannot slip in between the creation and the lookup.
+func (ms *memstore) getOrCreateBucket(bucket string) *memBucket {
 	ms.mu.Lock()
 	defer ms.mu.Unlock()
-	if ms.buckets[bucket] == nil {
-		ms.buckets[bucket] = &memBucket{
+	b := ms.buckets[bucket]
+	if b == nil {
+		b = &memBucket{
 			created: time.Now(),
 			files:   btree.New(16),
 		}
+		ms.buckets[bucket] = b
 	}
-	return nil
+	return b
 }
 
 func (ms *memstore) GetBucketMeta(baseUrl HttpBaseUrl, bucket string) (*storage.Bucket, error) {
@@ -88,7 +97,7 @@ func (ms *memstore) GetMeta(baseUrl HttpBaseUrl, bucket string, filename string)
 }
 
 func (ms *memstore) Add(bucket string, filename string, contents []byte, meta *storage.Object) error {
-	_ = ms.CreateBucket(bucket)
+	b := ms.getOrCreateBucket(bucket)
 
 	InitScrubbedMeta(meta, filename)
 	meta.Metageneration = 1
@@ -101,7 +110,6 @@ func (ms *memstore) Add(bucket string, filename string, contents []byte, meta *s
 		meta.TimeCreated = meta.Updated
 	}
 
-	b := ms.getBucket(bucket)
 	b.mu.Lock()
 	defer b.mu.Unlock()
 	b.files.ReplaceOrInsert(&memFile{
@@ -124,6 +132,10 @@ func (ms *memstore) UpdateMeta(bucket string, filename string, meta *storage.Obj
 	meta.Md5Hash = f.meta.Md5Hash
 
 	b := ms.getBucket(bucket)
+	if b == nil {
+		// the bucket was deleted after the lookup above
+		return os.ErrNotExist
+	}
 	b.mu.Lock()
 	defer b.mu.Unlock()
 	b.files.ReplaceOrInsert(&memFile{
